@@ -187,7 +187,7 @@ func c10scalarSources() []interface{} {
 			out = append(out, float32(f))
 		}
 	}
-	out = append(out, "", " ", " 5", "5 ", "+5", "05", "-0", "0x10", "1e2", "1_000", "５", "abc", "true", "false", "1", "0", "yes", "no", "TRUE", "1.0", "1.", ".5", "--1",
+	out = append(out, "", " ", " 5", "5 ", "+5", "05", "-0", "0x10", "1e2", "1_000", "５", "abc", "true", "false", "1", "0", "yes", "no", "np", "on", "off", "nope", "maybe", "TRUE", "1.0", "1.", ".5", "--1",
 		"18446744073709551616", "-9223372036854775809", "340282366920938463463374607431768211456", true, false,
 		"aGVsbG8=", "@@@", "aGVsbG8", []byte("hello"), []byte{}, []byte{0, 255, 10})
 	return out
@@ -393,6 +393,15 @@ func (p c10) checkDenotes(c *core.Ctx, api, tag string, f val.Format, s interfac
 		}
 		if d.str != nil && ((*d.str == "true" && !got) || (*d.str == "false" && got)) {
 			c.Violate("inexact/"+tag+"/truth-changed", "%s(%s, %#v) = %v", api, f, s, got)
+		}
+		if text, isText := s.(string); isText {
+			// a text converts to a boolean only if it is a word for that truth value
+			word := strings.ToLower(strings.TrimSpace(text))
+			yes := map[string]bool{"true": true, "1": true, "yes": true, "y": true, "on": true, "t": true}
+			no := map[string]bool{"false": true, "0": true, "no": true, "n": true, "off": true, "f": true}
+			if (got && !yes[word]) || (!got && !no[word]) {
+				c.Violate("inexact/"+tag+"/not-a-word-for-it", "%s(%s, %q) = %v: the text is no word for %v", api, f, text, got, got)
+			}
 		}
 		if d.num != nil && d.str == nil {
 			c.Violate("inexact/"+tag+"/number-as-bool", "%s(%s, %#v) = %v", api, f, s, got)
